@@ -97,7 +97,7 @@ def generate(seed: int, tier: str) -> Dict[str, Any]:
                                     (["t2", "residual_cap_per_turn"], [0, 1, 32])])
             ops.append({"op": "set_cfg", "path": path, "value": ro.choice(vals)})
         else:
-            now += ro.choice([0, 1000, 86_400_000])
+            now += ro.choice([0, 1000, 6 * 3_600_000, 86_400_000])
             ops.append({"op": "turn", "agent": agents[len(ops) % len(agents)] if ro.chance(0.7) else ro.choice(agents), "text": ro.choice(texts), "turn_id": i, "now_ms": now})
     return {"world": world, "cfg": raw, "ops": ops}
 
